@@ -63,6 +63,7 @@ import PS.Proofs.Enum.UBridge
 import PS.Proofs.Enum.UUnamb
 import PS.Proofs.Enum.UCompleteRun
 import PS.Proofs.Enum.UOrderCheck
+import PS.Proofs.Enum.UTotalCheck
 namespace PS.C02HS
 open PS PS.G
 
@@ -667,6 +668,48 @@ theorem Eu_rhyp : RHyp Eu uRank2 (fun v : Rat => 0 ≤ v) :=
 example : ∀ s' out, UHS.take Eu 60 30 (UHS.St.empty Gu) [] = some (s', out, true) →
     out.Nodup ∧ ∀ p, p ∈ out ↔ PS.U.genU (Gu.toUCFG s0) p = true :=
   fun s' out h => C02_HS_U_exactly_once Eu uRank2 _ Eu_rhyp s0 60 30 s' out h
+
+/-- **every `query(S, program)` returns** (no KeyError, no failed assertion, fuel not exhausted) with fuel
+    `(rank S + 1) · (L + Al + A + 6)` in a state that satisfies the invariants, `L` / `Al` / `A` bounding
+    the number of rules of a non-terminal, of alternatives of a rule and of arguments (`UHS.THyp`: also
+    every non-terminal used has a row and no row is empty) -/
+theorem C02_HS_U_query_total (E : UHS.Env U π) (rank : UHS.UNT U → Nat) (Good : π → Prop) (H : OHyp E rank Good)
+    (L Al A : Nat) (T : THyp E L Al A) (nt : UHS.UNT U) (hrow : ∃ rs, AList.lookup nt E.G.rules = some rs)
+    (n : Nat) (s : UHS.St U π) (p : Option Prog) (hn : (rank nt + 1) * (L + Al + A + 6) ≤ n)
+    (hb : Base E s) (hc : CacheC s) (hpre : OPre E rank (.query nt p) s) : ∃ res, UHS.query E n s nt p = some res :=
+  (low_all H T (rank nt + 1)).query nt (Nat.lt_succ_self _) hrow n s p hn hb hc hpre
+
+/-- **TERMINATION**: with fuel at least `(rank start + 1) · (L + Al + A + 6)` for every start symbol, the
+    generator raises `StopIteration` after finitely many `next` (every `next` returns:
+    `UHS.next_total`; the yielded programs are distinct members of a finite language) -/
+theorem C02_HS_U_stops (E : UHS.Env U π) (rank : UHS.UNT U → Nat) (Good : π → Prop) (R : RHyp E rank Good)
+    (L Al A : Nat) (T : THyp E L Al A) (fuel : Nat) (hf : FuelOK E rank (L + Al + A + 6) fuel) :
+    ∃ k s' out, UHS.take E fuel k (UHS.St.empty E.G) [] = some (s', out, true) :=
+  take_stops R T hf
+
+/-- **C02 FOR THE UNAMBIGUOUS-GRAMMAR MACHINE ON ACYCLIC UNAMBIGUOUS GRAMMARS (full statement)**: for every
+    sufficient fuel there is a number `k` of `next` steps after which the generator has stopped, and its
+    output lists the language `U.genU` (several start symbols) without repetition: every program exactly once.
+    Heap search = `UHeapSearch` with threshold 0 and no filter (`UHS.rhyp_prob`); the theorem holds for
+    every priority type with a strict weak order and a monotone `combine`. -/
+theorem C02_HS_U_full (E : UHS.Env U π) (rank : UHS.UNT U → Nat) (Good : π → Prop) (R : RHyp E rank Good)
+    (L Al A : Nat) (T : THyp E L Al A) (d : UHS.UNT U) (fuel : Nat) (hf : FuelOK E rank (L + Al + A + 6) fuel) :
+    ∃ k s' out, UHS.take E fuel k (UHS.St.empty E.G) [] = some (s', out, true) ∧
+      out.Nodup ∧ ∀ p, p ∈ out ↔ PS.U.genU (E.G.toUCFG d) p = true := by
+  obtain ⟨k, s', out, h⟩ := take_stops R T hf
+  exact ⟨k, s', out, h, C02_HS_U_exactly_once E rank Good R d fuel k s' out h⟩
+
+/-- the example grammar: at most 2 rules per non-terminal, 2 alternatives, 2 arguments; max rank 2:
+    enough fuel is 3 · (2 + 2 + 2 + 6) = 36 -/
+theorem Eu_thyp : THyp Eu 2 2 2 := thyp_of_check Eu 2 2 2 (by decide)
+
+example : ∃ k s' out, UHS.take Eu 36 k (UHS.St.empty Gu) [] = some (s', out, true) ∧
+    out.Nodup ∧ ∀ p, p ∈ out ↔ PS.U.genU (Gu.toUCFG s0) p = true :=
+  C02_HS_U_full Eu uRank2 _ Eu_rhyp 2 2 2 Eu_thyp s0 36 (fuelOK_of_check Eu uRank2 12 36 (by decide))
+
+/-- with that fuel the machine does stop after its 22 programs (kernel evaluation) -/
+example : (UHS.take Eu 36 30 (UHS.St.empty Gu) []).map (fun r => (r.2.1.length, r.2.2)) = some (22, true) := by
+  decide +kernel
 end UMachine
 
 end PS.C02HS
